@@ -20,7 +20,10 @@ pub fn safe_math_optimization(source_unit: SourceUnit, pre_080: bool) -> HashSet
     let solidity_version = utils::get_solidity_version_from_source_unit(source_unit.clone())
         .expect("Could not extract solidity version from source unit");
 
-    if (pre_080 && solidity_version.1 < 8) || (!pre_080 && solidity_version.1 >= 8) {
+    //Versions are compared as (major, minor, patch) triples
+    let is_pre_080 = solidity_version < (0, 8, 0);
+
+    if (pre_080 && is_pre_080) || (!pre_080 && !is_pre_080) {
         //if using safe math
         if check_if_using_safe_math(source_unit.clone()) {
             //get all locations that safe math functions are used
